@@ -360,12 +360,17 @@ func (s *BooleanSearcher) Advance(ctx *search.SearchContext, ID index.IndexInter
 		}
 
 		if s.shouldSearcher != nil {
-			if s.currShould != nil {
-				ctx.DocumentMatchPool.Put(s.currShould)
-			}
-			s.currShould, err = s.shouldSearcher.Advance(ctx, ID)
-			if err != nil {
-				return nil, err
+			// like mustNotSearcher below, the should cursor may already be at or
+			// ahead of the requested ID (it is only tracked by currentID when there
+			// is no must clause); advancing it again would skip that pending match.
+			if s.currShould == nil || s.currShould.IndexInternalID.Compare(ID) < 0 {
+				if s.currShould != nil {
+					ctx.DocumentMatchPool.Put(s.currShould)
+				}
+				s.currShould, err = s.shouldSearcher.Advance(ctx, ID)
+				if err != nil {
+					return nil, err
+				}
 			}
 		}
 
